@@ -126,7 +126,7 @@ func init() {
 		Components: e1Components, Assumptions: commonAssumptions,
 		Gen: func(r *Rand, tier string) *Case {
 			c := &Case{Server: ServerCfg{Limit: smallLimit(r)}}
-			genHistory(r, c, histOpts{simple: true, extended: true, errs: true, unknown: true, oversized: true, unknownNames: true, closes: true, stray: true, params: true, maxUnits: units(tier, 8), terminate: true})
+			genHistory(r, c, histOpts{simple: true, extended: true, errs: true, abuse: r.Chance(1, 3), unknown: true, oversized: true, unknownNames: true, closes: true, stray: true, params: true, maxUnits: units(tier, 8), terminate: true})
 			return c
 		},
 		Check: func(x *Exec, c *Case) ([]Violation, bool) {
